@@ -17,7 +17,6 @@ for d in seeded/C*/; do
   [ "$n" = "C10-sigpipe-required-for-early-close" ] && c=C18
   [ "$n" = "C10-eof-flag-set-on-close" ] && c=C18
   [ "$n" = "C03-multiline-reader-buffer-append-r6" ] && c=C02
-  [ "$n" = "C09-linebuffer-clear-keeps-tail" ] && c=C02
   git -C /repo diff --quiet || { echo "/repo is dirty"; exit 2; }
   git -C /repo apply /verif/$d/patch.diff || { echo "$n patch-does-not-apply" >> $out.tmp; continue; }
   line=$(./check $c quick 2>&1 | grep -E "^$c quick|CHECK-BROKEN" | head -1)
